@@ -91,6 +91,41 @@ def generate(repo):
         if not arms:
             lost(G, fn + ' arms')
         out.append('Definition %s : list string := %s.\n' % (cname, _strlist(arms)))
+    # --- inner structure of the composite arms: element-type dispatch of arrays, key dispatch of maps
+    def _arm_region(body, ctor):
+        m = re.search(r'\n {12}FieldType::%s(?:\([^)]*\))?[^\n]*=>' % ctor, body)
+        if not m:
+            return ''
+        n = re.search(r'\n {12}(?:FieldType::\w+|_)\b[^\n]*=>', body[m.end():])
+        return body[m.end():m.end() + n.start()] if n else body[m.end():]
+
+    for fn, cname in (('prune_undeclared_at', 'prune'), ('normalize_at', 'normalize')):
+        body = fn_body(field, fn, G)
+        arr = _arm_region(body, 'Array')
+        mp = _arm_region(body, 'Map')
+        if not arr or not mp:
+            lost(G, fn + ' Array/Map arm')
+        shape = []
+        if re.search(r'match\s+types\.len\(\)', arr):
+            shape.append('match types.len()')
+        shape += ['arm ' + a for a in re.findall(r'\n\s+(0|1|_)\s*=>', arr)]
+        if re.search(r'for\s+\w+\s+in\s+values\.iter_mut\(\)\s*\{\s*types\[0\]\.%s\(' % fn, arr):
+            shape.append('every element with types[0]')
+        if re.search(r'types\.iter\(\)\.zip\(values\.iter_mut\(\)\)', arr):
+            shape.append('zip types values')
+        shape.append('recursive calls %d' % len(re.findall(r'\.%s\(' % fn, arr)))
+        out.append('Definition %s_array_shape : list string := %s.\n' % (cname, _strlist(shape)))
+        mshape = []
+        if 'as_wildcard_map(types)' in mp:
+            mshape.append('as_wildcard_map')
+        if re.search(r'values\.values_mut\(\)', mp):
+            mshape.append('wildcard: every value')
+        if re.search(r'values\.retain\(\|k,\s*_\|\s*types\.contains_key\(k\)\)', mp):
+            mshape.append('retain declared keys')
+        if re.search(r'types\.get\(k\)', mp):
+            mshape.append('keyed: types.get(k)')
+        mshape.append('recursive calls %d' % len(re.findall(r'\.%s\(' % fn, mp)))
+        out.append('Definition %s_map_shape : list string := %s.\n' % (cname, _strlist(mshape)))
     nb = fn_body(field, 'normalize_at', G)
     guards = [g for g in ('<= i64::MAX', 'is_f32_read_back(', '<= u16::MAX') if g in _norm(nb)]
     out.append('Definition normalize_guards : list string := %s.\n' % _strlist(guards))
